@@ -30,6 +30,8 @@ func toCode(t types.Type) *jen.Statement {
 		return jen.Func().Add(toCodeSignature(cast))
 	case *types.Chan:
 		return toChan(cast)
+	case *types.TypeParam:
+		return jen.Id(cast.Obj().Name())
 	}
 	panic("unsupported type " + t.String())
 }
